@@ -144,6 +144,18 @@ func drawKnobs(x *simkit.Ctx) *knobs {
 }
 
 func (w *World) Run(x *simkit.Ctx) {
+	if d := os.Getenv("VERIF_SYNC_DUMP"); d != "" { // debugging aid: keep the full trace of every run
+		x.Verbose = true
+		defer func() {
+			f, err := os.Create(fmt.Sprintf("%s/trace-%d-%d.txt", d, x.Case.Seed, os.Getpid()))
+			if err == nil {
+				for _, l := range x.Trace {
+					fmt.Fprintln(f, l)
+				}
+				f.Close()
+			}
+		}()
+	}
 	k := drawKnobs(x)
 	h := &harness{x: x, k: k, forged: map[*types.Block]bool{}, chunkPos: map[*types.Block]int{}}
 	h.u = buildUniverse(k.F, k.locX, k.remX)
